@@ -18,7 +18,7 @@ RULE = (
     "point or one assembly order; distinct = (n, n_chunks[, order]); non-trivial = at least one pair (n>=2)"
 )
 ASSUMPTIONS = ["thetas in the assembly workload are harness stubs with prescribed predictions plus real sparse-combo samples"]
-REQUIRED = {"chunked_large_matrices_n_257": {"quick": 1, "thorough": 1}, "assemblies_by_random_bracketing": {"quick": 60, "thorough": 800}, "cli_score_assemblies": {"quick": 8, "thorough": 60}, "chunk_files_overwritten": {"quick": 200, "thorough": 3000}, "partition_grid_points": {"quick": 500, "thorough": 1800}, "assemblies_checked": {"quick": 150, "thorough": 2000}, "refusals_checked": {"quick": 50, "thorough": 500}, "large_matrix_roundtrips": {"quick": 8, "thorough": 80}, "cli_matrices_checked": {"quick": 6, "thorough": 50}}
+REQUIRED = {"many_experiment_matrices": {"quick": 1, "thorough": 1}, "chunked_large_matrices_n_257": {"quick": 1, "thorough": 1}, "assemblies_by_random_bracketing": {"quick": 60, "thorough": 800}, "cli_score_assemblies": {"quick": 8, "thorough": 60}, "chunk_files_overwritten": {"quick": 200, "thorough": 3000}, "partition_grid_points": {"quick": 500, "thorough": 1800}, "assemblies_checked": {"quick": 150, "thorough": 2000}, "refusals_checked": {"quick": 50, "thorough": 500}, "large_matrix_roundtrips": {"quick": 8, "thorough": 80}, "cli_matrices_checked": {"quick": 6, "thorough": 50}}
 N_EXH = {"quick": 14, "thorough": 22}  # grid sizes 548 / 1900 points
 
 
@@ -214,6 +214,8 @@ def run_shard(rec, tier, seed, shard, nshards):
                     rec.count("refusals_checked")
                     rec.violation("C07/refusal/wrong-exception", "incomplete matrix raised %r instead of ValueError" % (e,), w)
         large_matrices(rec, tier, rng, DC, tmp, shard)
+        if shard == 1:
+            many_experiments(rec, rng, DC)
         cli_chunks(rec, tier, rng, DC, tmp)
 
 
@@ -236,7 +238,11 @@ def cli_chunks(rec, tier, rng, DC, tmp):
                 th = gen.random_sparse_combo_theta(rng, sp.n_unique_samples, max(1, sp.n_unique_treatments), scale=1.0)
                 h.add_theta(th)
                 thetas.append(th)
-            fn = os.path.join(tmp, "cli_th_%d.h5" % k)
+            if ci % 2:
+                os.makedirs(os.path.join(tmp, "cli_chain_%d" % k), exist_ok=True)
+                fn = os.path.join(tmp, "cli_chain_%d" % k, "samples.h5")  # one directory per chain, equal file names
+            else:
+                fn = os.path.join(tmp, "cli_th_%d.h5" % k)
             h.save_h5(fn)
             files.append(fn)
         f_s = os.path.join(tmp, "cli_screen.h5")
@@ -248,7 +254,11 @@ def cli_chunks(rec, tier, rng, DC, tmp):
         rec.case(("cli", tuple(sizes), n_chunks), nontrivial=True)
         try:
             for c in range(n_chunks):
-                o = os.path.join(tmp, "cli_d_%d.h5" % c)
+                if ci % 2:
+                    os.makedirs(os.path.join(tmp, "cli_dchunk_%d" % c), exist_ok=True)
+                    o = os.path.join(tmp, "cli_dchunk_%d" % c, "distances.h5")
+                else:
+                    o = os.path.join(tmp, "cli_d_%d.h5" % c)
                 kit.run_cli(cli.main, ["--data", f_s, "--thetas"] + files + ["--distance-metric", "MSEDistance", "--n-chunks", n_chunks, "--chunk-index", c, "--output", o])
                 outs.append(o)
             order = [int(x) for x in rng.permutation(n_chunks)]
@@ -315,6 +325,51 @@ def cli_chunks(rec, tier, rng, DC, tmp):
                 rec.violation("C07/refusal/wrong-exception", "calculate_scores raised %r instead of ValueError for an incomplete set of distance chunks" % (e,), w)
 
 
+def many_experiments(rec, rng, DC):
+    """One distance computation at the scale of a full library screen: 28 posterior samples predicting 320 000
+    experiments each (72 MB of predictions). Every entry must still be metric(pred_i, pred_j)."""
+    from batchie.core import Theta, ThetaHolder
+    from batchie.data import Screen
+    from batchie.distance.mse import MSEDistance
+
+    class Fixed(Theta):
+        def __init__(self, v):
+            self.v = v
+
+        def predict_viability(self, data):
+            return self.v.copy()
+
+        def predict_conditional_mean(self, data):
+            return self.v.copy()
+
+        def predict_conditional_variance(self, data):
+            return np.ones_like(self.v)
+
+    n_rows, T = 320000, 28
+    idx = np.arange(n_rows)
+    screen = Screen(treatment_names=np.stack([np.char.add("d", (idx % 40).astype(str)), np.char.add("e", (idx % 30).astype(str))], axis=1), treatment_doses=np.stack([1.0 + idx % 3, 1.0 + idx % 2], axis=1).astype(float), sample_names=np.char.add("s", (idx % 12).astype(str)), plate_names=np.char.add("p", (idx // 1600).astype(str)))
+    holder = ThetaHolder(n_thetas=T)
+    preds = []
+    for _ in range(T):
+        v = rng.random(n_rows)
+        preds.append(v)
+        holder.add_theta(Fixed(v))
+    metric = MSEDistance(sigmoid=False)
+    rec.case(("many-experiments", n_rows, T), nontrivial=True)
+    try:
+        dense = DC.calculate_pairwise_distance_matrix_on_predictions(holder, MSEDistance(sigmoid=False), screen, 0, 1).to_dense()
+    except Exception as e:
+        rec.violation("C07/assembly/single-chunk-raises", "distance computation on %d experiments x %d samples raised %r" % (n_rows, T, e), {"rows": n_rows, "n_thetas": T})
+        return
+    ref = np.zeros((T, T))
+    for i in range(T):
+        for j in range(i):
+            ref[i, j] = ref[j, i] = metric.distance(preds[i].copy(), preds[j].copy())
+    rec.count("many_experiment_matrices")
+    wrong = int((dense != ref).sum())
+    rec.check(dense.shape == ref.shape and wrong == 0, "C07/assembly/entry-not-metric", lambda: "%d experiments x %d samples: %d entries of the matrix are not metric(pred_i, pred_j)" % (n_rows, T, wrong), {"rows": n_rows, "n_thetas": T})
+
+
 def large_matrices(rec, tier, rng, DC, tmp, shard):
     sizes = [129, 200, 256, 257, 300] if tier == "thorough" else [int(rng.choice([129, 200, 256, 257, 300]))]
     for n in sizes:
@@ -340,46 +395,46 @@ def large_matrices(rec, tier, rng, DC, tmp, shard):
         rec.check(bool(np.all(np.diag(dense) == 0)) and kit.bytes_equal(dense, dense.T.copy()), "C07/assembly/not-symmetric-zero-diagonal", "loaded %d x %d matrix not symmetric / zero diagonal" % (n, n), w)
         os.remove(fn)
     if tier == "thorough" or shard < 3:
-        # chunks of a matrix of 130 / 257 / 300 samples (past every small-integer and one-byte boundary), saved,
-        # loaded, combined in both orders and with an in-memory chunk on either side
+        # two parts of a matrix of 130 / 257 / 300 samples (past every small-integer and one-byte boundary): a big part
+        # and a small one (combine() is quadratic in its right operand), saved, loaded and combined - both loaded, or one
+        # of them still in memory
         n = [130, 257, 300][shard % 3]
         rec.count("chunked_large_matrices_n_%d" % n)
         vals = rng.random((n, n))
         ref = np.tril(vals, -1)
         ref = ref + ref.T
+        pairs = [(i, j) for i in range(n) for j in range(i)]
+        cut = len(pairs) - 150
+
+        def part(which):
+            ch = DC.ChunkedDistanceMatrix(size=n)
+            for (i, j) in (pairs[:cut] if which == 0 else pairs[cut:]):
+                ch.add_value(i, j, float(vals[i, j]))
+            return ch
+
         files = []
         for c in range(2):
-            ch = DC.ChunkedDistanceMatrix(size=n, n_chunks=2, chunk_index=c)
-            for (i, j) in DC.get_lower_triangular_indices_chunk(n, c, 2):
-                ch.add_value(i, j, float(vals[i, j]))
             fn = os.path.join(tmp, "big2_%d.h5" % c)
-            ch.save(fn)
+            part(c).save(fn)
             files.append(fn)
-        for order in ((0, 1), (1, 0)):
-            rec.case(("large-concat", n, order))
+        for what, mk in (
+            ("loaded + loaded", lambda: (DC.ChunkedDistanceMatrix.load(files[0]), DC.ChunkedDistanceMatrix.load(files[1]))),
+            ("loaded + in-memory", lambda: (DC.ChunkedDistanceMatrix.load(files[0]), part(1))),
+            ("in-memory + loaded", lambda: (part(0), DC.ChunkedDistanceMatrix.load(files[1]))),
+            ("concat of loaded", None),
+        ):
+            rec.case(("large-parts", n, what))
             try:
-                dense = DC.ChunkedDistanceMatrix.concat([DC.ChunkedDistanceMatrix.load(files[c]) for c in order]).to_dense()
+                if mk is None:
+                    dense = DC.ChunkedDistanceMatrix.concat([DC.ChunkedDistanceMatrix.load(f_) for f_ in files]).to_dense()
+                else:
+                    a_, b_ = mk()
+                    dense = a_.combine(b_).to_dense()
             except Exception as e:
-                rec.violation("C07/assembly/concat-raises", "concat of two chunks of a %d-sample matrix raised %r" % (n, e), {"n": n})
+                rec.violation("C07/assembly/concat-raises", "combining two parts (%s) of a %d-sample matrix raised %r" % (what, n, e), {"n": n})
                 continue
             rec.count("large_matrix_roundtrips")
-            rec.check(kit.bytes_equal(dense, ref), "C07/assembly/order-dependent", "two chunks of a %d-sample matrix do not assemble to the reference (order %r)" % (n, order), {"n": n})
-        # one operand loaded from its file, the other still in memory
-        mem = []
-        for c in range(2):
-            ch = DC.ChunkedDistanceMatrix(size=n, n_chunks=2, chunk_index=c)
-            for (i, j) in DC.get_lower_triangular_indices_chunk(n, c, 2):
-                ch.add_value(i, j, float(vals[i, j]))
-            mem.append(ch)
-        for a_, b_, what in ((DC.ChunkedDistanceMatrix.load(files[0]), mem[1], "loaded + in-memory"), (mem[0], DC.ChunkedDistanceMatrix.load(files[1]), "in-memory + loaded")):
-            rec.case(("large-mixed", n, what))
-            try:
-                dense = a_.combine(b_).to_dense()
-            except Exception as e:
-                rec.violation("C07/assembly/concat-raises", "combine (%s) of two chunks of a %d-sample matrix raised %r" % (what, n, e), {"n": n})
-                continue
-            rec.count("large_matrix_roundtrips")
-            rec.check(kit.bytes_equal(dense, ref), "C07/assembly/order-dependent", "two chunks of a %d-sample matrix (%s) do not assemble to the reference" % (n, what), {"n": n})
+            rec.check(kit.bytes_equal(dense, ref), "C07/assembly/order-dependent", "two parts of a %d-sample matrix (%s) do not assemble to the reference" % (n, what), {"n": n})
 
 
 def coverage_extra(tier, counters):
